@@ -83,6 +83,7 @@ def run(text, args=(), name="input.pdb", want_text=True, capture_log=False, stre
             mol = propka.run.single(name, tuple(args), stream=io.StringIO(text), write_pka=False)
         else:
             mol = propka.run.single(name, tuple(args), write_pka=False)
+            mol.name = "input"
         o.mol = mol
         for cname, conf in mol.conformations.items():
             o.confs[cname] = [group_record(g) for g in conf.groups]
